@@ -11,7 +11,9 @@ of file-producing steps
             (depth 1-2) of a file, filtered or not, storing none / the innate /
             picked (also basin-provided) features
     copy    ``rtdc_copy(include_basins=True)`` with all / scalar / no features
-    move    copy the whole directory tree elsewhere and delete the old one
+
+and optionally one *move* (after a chosen step the whole directory tree is
+copied elsewhere and the old one deleted; later steps work in the new place).
 
 Every step takes any earlier file as its source, so chains (basins of basins)
 of depth 1..5 arise.  A from-scratch model keeps for every file its own
@@ -80,18 +82,8 @@ IMG = (6, 9)
 QPI = (4, 5)
 NSAMP = 11
 
-T_CHILD = "child-with-upstream-basins"
-T_FAST = "fastpath-nd-from-mapped-basin"
-
-
-TAINTS = (T_CHILD, T_FAST)
-
-
 def sg(sub, cls, *rest):
-    """failure signature; everything downstream of a known-defective export
-    collapses into one signature per defect class"""
-    if cls in TAINTS:
-        return f"tainted/{cls}"
+    """failure signature <sub-check>/<feature kind>/<basin route class>/..."""
     return "/".join([sub] + [str(r) for r in rest[:1]] + [cls]
                     + [str(r) for r in rest[1:]])
 
@@ -143,9 +135,9 @@ def st_internal(draw):
 @st.composite
 def st_step(draw, pos):
     op = draw(st.sampled_from(["ref", "ref", "ref", "export", "export", "export",
-                               "export", "copy", "move"]))
+                               "export", "copy"]))
     src = draw(st.sampled_from([0, 0, 0, 0, 1, 1, 2, 3, 9, 9]))
-    sub = draw(st.sampled_from([False, False, False, True]))
+    sub = draw(st.sampled_from([False, False, True]))
     if op == "ref":
         return {"op": "ref", "src": src, "sub": sub,
                 "map": draw(st.one_of(st.none(), st_map(), st_map())),
@@ -169,7 +161,7 @@ def st_step(draw, pos):
     if op == "copy":
         return {"op": "copy", "src": src, "sub": sub,
                 "features": draw(st.sampled_from(["all", "scalar", "none"]))}
-    return {"op": "move"}
+    raise ValueError(op)
 
 
 @st.composite
@@ -200,6 +192,8 @@ def st_spec(draw):
     return {"chunk": draw(st.sampled_from([100, 100, None])),
             "origin": origin,
             "steps": [draw(st_step(k)) for k in range(nsteps)],
+            # the directory tree is moved after step `move_at` (clipped)
+            "move_at": draw(st.one_of(st.none(), st.none(), st.integers(1, 5))),
             "acc": draw(st.lists(st_route(), min_size=2, max_size=4))}
 
 
@@ -278,7 +272,7 @@ class MF:
         self.name, self.path, self.n = name, pathlib.Path(path), n
         self.own = {}        # feature -> data
         self.basins = []     # list of MB
-        self.taint = {}      # feature -> known-defect class
+        self.taint = {}      # feature -> known-defect class (none at present)
         self.born = ""       # how it was made (for messages)
 
 
@@ -469,7 +463,7 @@ class Run:
         return base / f"f{self.count}_{tag}.rtdc"
 
     def clean_files(self):
-        return [f for f in self.model.files if not f.taint]
+        return list(self.model.files)
 
     def pick_src(self, i, avoid_origin=False):
         """i counts backwards from the newest usable file (0 = newest), so
@@ -632,11 +626,6 @@ class Run:
                 cs = model.cands(src, f)
                 if len(cs) != 1:
                     continue  # not obtainable or ambiguous
-                if f not in src.own and kind_of(f) in ("contour", "trace") \
-                        and cs[0][1] == "mapped":
-                    continue  # known finding: cannot be read through a map
-                if cs[0][2]:
-                    continue
                 pool.append(f)
             pm = bits_mask(st_["pick"], len(pool), need_true=False) if pool else []
             stored = [f for f, s in zip(pool, pm) if s]
@@ -645,52 +634,21 @@ class Run:
                 mode = "none"
         upstream = [b for b in src.basins if b.kind == "file" and alive(src, b)]
         fastpath = nchild == 0 and (not filtered or len(sel) == src.n)
-        fast_taint = [f for f in stored
-                      if f not in src.own and kind_of(f) == "nd" and fastpath
-                      and model.cands(src, f)[0][1] == "mapped"]
-        child_taint = nchild > 0 and len(upstream) > 0
-        tr = model.cands(src, "trace") if "trace" not in src.own else []
-        trace_mapped = nchild > 0 and any(c[1] == "mapped" for c in tr)
-        stage = "open"
-        try:
-            with dclab.new_dataset(src.path) as ds:
-                cur = ds
-                keep = []
-                for lvl, bits in enumerate(masks):
-                    cur.filter.manual[:] = bits_mask(bits, len(cur))
-                    cur.apply_filter()
-                    if lvl < nchild:
-                        stage = "child"
-                        cur = dclab.new_dataset(cur)
-                        keep.append(cur)
-                stage = "export"
-                cur.export.hdf5(path, features=feats_arg, filtered=filtered,
-                                basins=True)
-        except Exception as e:  # noqa
-            if stage == "child" and trace_mapped and isinstance(e, TypeError):
-                sig = "child-raises/trace-via-mapped-basin/TypeError"
-            elif stage == "export" and child_taint:
-                sig = f"export-raises/{T_CHILD}/{type(e).__name__}"
-            elif stage == "export" and fast_taint:
-                sig = f"export-raises/{T_FAST}/{type(e).__name__}"
-            else:
-                raise
-            rec.fail(sig,
-                     f"{stage} raised {type(e).__name__}: {e} "
-                     f"(source {src.born}, {nchild} child level(s), "
-                     f"filtered={filtered}, stored={stored})")
-            rec.cls("export:raised-known")
-            if path.exists():
-                path.unlink()
-            return
+        with dclab.new_dataset(src.path) as ds:
+            cur = ds
+            keep = []
+            for lvl, bits in enumerate(masks):
+                cur.filter.manual[:] = bits_mask(bits, len(cur))
+                cur.apply_filter()
+                if lvl < nchild:
+                    cur = dclab.new_dataset(cur)
+                    keep.append(cur)
+            cur.export.hdf5(path, features=feats_arg, filtered=filtered,
+                            basins=True)
         mf = MF(path.name, path, len(sel))
         for f in stored:
             c = model.cands(src, f)[0]
             mf.own[f] = take(c[0], None if identity else sel)
-            if c[2]:
-                mf.taint[f] = c[2]
-        for f in fast_taint:
-            mf.taint[f] = T_FAST
         for b in upstream:
             bl = sorted(model.blisted(b))
             if identity:
@@ -701,12 +659,6 @@ class Run:
                 cmap = b.map[sel]
             mf.basins.append(MB("file", b.target, cmap, bl,
                                 [str(b.target.path)]))
-            if child_taint:
-                for f in bl:
-                    if f not in mf.own:
-                        mf.taint.setdefault(f, T_CHILD)
-        if child_taint:
-            mf.taint["*"] = T_CHILD   # e.g. the file length itself
         mf.basins.append(MB("file", src, None if identity else sel, None,
                             [str(src.path), src.path.name]))
         mf.born = "export"
@@ -714,10 +666,12 @@ class Run:
         rec.cls("export:child" if nchild else "export:file")
         if nchild > 1:
             rec.cls("export:grandchild")
-        if child_taint:
-            rec.cls("export:" + T_CHILD)
-        if fast_taint:
-            rec.cls("export:" + T_FAST)
+        if nchild and upstream:
+            rec.cls("export:child-with-upstream-basins")
+        if fastpath and any(f not in src.own and kind_of(f) == "nd"
+                            and model.cands(src, f)[0][1] == "mapped"
+                            for f in stored):
+            rec.cls("export:fastpath-nd-from-mapped-basin")
         rec.cls("export:filtered" if filtered else "export:unfiltered")
         rec.cls(f"export:features-{'picked' if mode == 'pick' else mode}")
         if any(f not in src.own for f in stored):
@@ -729,28 +683,15 @@ class Run:
         self.model.reset()
         path = self.newpath(st_["sub"], "copy")
         mode = st_["features"]
-        try:
-            with h5py.File(src.path, "r") as h5s, RTDCWriter(path) as hw:
-                rtdc_copy(src_h5file=h5s, dst_h5file=hw.h5file, features=mode,
-                          include_basins=True)
-        except ValueError as e:
-            if len(src.basins) < 2:
-                raise
-            rec.fail(f"copy-raises/multiple-basin-definitions/{type(e).__name__}",
-                     f"rtdc_copy(features={mode!r}, include_basins=True) of a file "
-                     f"with {len(src.basins)} basin definitions raised "
-                     f"{type(e).__name__}: {e}")
-            rec.cls("copy:raised-known")
-            if path.exists():
-                path.unlink()
-            return
+        with h5py.File(src.path, "r") as h5s, RTDCWriter(path) as hw:
+            rtdc_copy(src_h5file=h5s, dst_h5file=hw.h5file, features=mode,
+                      include_basins=True)
 
         def selected(f):
             return mode == "all" or (mode == "scalar" and kind_of(f) == "scalar")
 
         mf = MF(path.name, path, src.n)
         mf.own = {f: v for f, v in src.own.items() if selected(f)}
-        mf.taint = dict(src.taint)
         for b in src.basins:
             if b.kind == "internal":
                 fs = [f for f in b.feats if selected(f)]
@@ -801,15 +742,11 @@ class Run:
         listed = model.listed(f)
         names = sorted(model.names(f))
         with dclab.new_dataset(f.path) as ds:
-            rec.check(len(ds) == f.n,
-                      sg("len", sorted(set(f.taint.values()))[0]) if f.taint
-                      else f"len/{f.born}",
+            rec.check(len(ds) == f.n, f"len/{f.born}",
                       lambda: f"len(ds)={len(ds)}, model {f.n} ({f.name}, {phase})")
             got_b = {x for x in ds.features_basin if not x.startswith("basinmap")}
-            tainted_file = bool(f.taint)
             rec.check(got_b == {x for x in listed if not x.startswith("basinmap")},
-                      sg("features_basin", sorted(set(f.taint.values()))[0])
-                      if tainted_file else f"features_basin/{f.born}",
+                      f"features_basin/{f.born}",
                       lambda: f"features_basin={sorted(got_b)}, model "
                               f"{sorted(listed)} ({f.name}, {phase})")
             innate = set(ds.features_innate)
@@ -822,8 +759,7 @@ class Run:
                 vias = sorted({c[1] for c in cs})
                 via = "own" if vias == ["own"] else (
                     "mapped" if "mapped" in vias else "same")
-                taints = sorted({c[2] for c in cs if c[2]})
-                cls = taints[0] if taints else via
+                cls = via
                 hops = max(c[3] for c in cs)
                 weird = any(c[4] for c in cs)
                 if len(cs) > 1:
@@ -973,7 +909,10 @@ def run_case(spec, rec):
         with chunk_bytes(spec["chunk"]), quiet():
             run = Run(spec, rec, d)
             run.origin()
-            for st_ in spec["steps"]:
+            mv = spec.get("move_at")
+            if mv is not None:
+                mv = min(mv, len(spec["steps"]))
+            for k, st_ in enumerate(spec["steps"]):
                 op = st_["op"]
                 if op == "ref":
                     run.step_ref(st_)
@@ -981,7 +920,7 @@ def run_case(spec, rec):
                     run.step_export(st_)
                 elif op == "copy":
                     run.step_copy(st_)
-                else:
+                if mv == k + 1:
                     run.step_move()
             run.check_all("final")
             if run.seen_nt:
